@@ -127,6 +127,10 @@ def general_event(c: dict, holder: str) -> dict:
             # oblique components: the off-diagonal entries of the products of the factor Gram matrices matter
             U = [u + 0.35 * rng.randn(*u.shape) for u in U]
             U = [u / np.linalg.norm(u, axis=0) for u in U]
+        # weights of either sign (every second instance): the Gram matrix of a Kruskal tensor carries the products of the
+        # signed weights, which only matters off the diagonal, i.e. for oblique components
+        if len(w) > 1 and c["seed"] % 2 == 1:
+            w = w * np.array([1.0, -1.0, 1.0])[: len(w)]
         # the leading vectors do not depend on the overall magnitude of the data
         w = w * float(c.get("scale", 1.0))
         if holder == "ktensor_shared":
